@@ -785,7 +785,8 @@ Definition agree_carbon (m : option (bool * list (list mval))) (i : option (bool
 
 (* components of the result on which client and model differ: field index, or 1000.. for the profiles;
    [raised] tells whether the constructor raised (then only that fact is compared: code 2000) *)
-Definition check_report (t : client_tables) (text : string) (raised : bool) (r : impl_report) : list nat :=
+Definition check_report_with (cf : list fieldspec -> string -> list (option ires) -> list nat)
+           (t : client_tables) (text : string) (raised : bool) (r : impl_report) : list nat :=
   match carbon_or_legacy t text with
   | None => if raised then [] else [2000%nat]
   | Some carbon =>
@@ -796,7 +797,7 @@ Definition check_report (t : client_tables) (text : string) (raised : bool) (r :
                   | Some _ => production_profile "ANNUAL HEATING, COOLING AND/OR ELECTRICITY PRODUCTION PROFILE"
                                                  "HEAT AND/OR ELECTRICITY EXTRACTION AND GENERATION PROFILE" text
                   end in
-      (check_fields (ct_fields t) text (ir_fields r)
+      (cf (ct_fields t) text (ir_fields r)
        ++ (if agree_profile power (ir_power r) then [] else [1000%nat])
        ++ (if agree_profile heat (ir_heat r) then [] else [1001%nat])
        ++ (if agree_table (addons_table "EXTENDED ECONOMIC PROFILE" text) (ir_extended r) then [] else [1002%nat])
@@ -804,6 +805,7 @@ Definition check_report (t : client_tables) (text : string) (raised : bool) (r :
        ++ (if agree_carbon carbon (ir_carbon r) then [] else [1004%nat])
        ++ (if agree_table (addons_table "S-DAC-GT PROFILE" text) (ir_sdacgt r) then [] else [1005%nat]))%list
   end.
+Definition check_report : client_tables -> string -> bool -> impl_report -> list nat := check_report_with check_fields.
 
 (* ---------------------------------------------------------------- client fields against writer labels *)
 
